@@ -110,3 +110,34 @@ func (r retSite) isSuccess() bool {
 	v := r.errResult()
 	return v != nil && isNilConst(v)
 }
+
+// maySucceed: the return statement can report success: its error result is the nil constant, or it forwards
+// the results of a call to a module function with a body that itself has a succeeding return (tail call of a
+// helper the success path was extracted into).
+func (r retSite) maySucceed() bool {
+	if r.isSuccess() {
+		return true
+	}
+	v := r.errResult()
+	if v == nil {
+		return false
+	}
+	ex, ok := unwrap(v).(*ssa.Extract)
+	if !ok {
+		return false
+	}
+	c, ok := ex.Tuple.(*ssa.Call)
+	if !ok {
+		return false
+	}
+	g := c.Call.StaticCallee()
+	if g == nil || len(g.Blocks) == 0 {
+		return false
+	}
+	for _, rs := range returnSites(g) {
+		if rs.isSuccess() {
+			return true
+		}
+	}
+	return false
+}
